@@ -73,7 +73,14 @@ def build(S):
     with numpy_shimmed():
         S.contract("spline-wiring", C18.FN_MFG, C18.run_spline, shape="one evaluation point inside the domain")
         S.contract("dct-wiring", C18.FN_MFG, C18.run_dct_wiring, shape="one evaluation point")
-        from . import C01_init, C18_dct
+        from . import C01_init, C08, C18_dct
+        from . import topokit as tk
+
+        # corners pinned to an X-point are the only grid points allowed off the integral curve of their radial
+        # line: the pin lists name the right radial edge in every topology (T7)
+        S.under_contract("hypnotoad.cases.tokamak:TokamakEquilibrium.describeDoubleNull")
+        for topo in tk.TOPOLOGIES:
+            S.contract("X-point pins[%s]" % topo, "hypnotoad.cases.tokamak:TokamakEquilibrium.describeDoubleNull", C08.make_pins_run(topo), expected_exceptions=(ValueError,), raises_ok=lambda p: True, shape="sizes symbolic")
 
         C01_init.add(S)  # contours[i][j] = point of perpendicular j for psi_vals[i]
         C18_dct.add(S)  # f_R, f_Z of the dct method are built from ddR, ddZ: derivatives of __call__ on non-square grids
